@@ -20,8 +20,9 @@ def files():
     G.add_message(a, "NotReferenced", [G.F("z", 1, T.TYPE_STRING)])
     G.add_message(fd, "B", [G.F("cs", 1, T.TYPE_MESSAGE, label=G.REPEATED, type_name=M + "C"), G.F("res", 2, T.TYPE_STRING, resource_ref="lab.example.com/Res")])
     G.add_message(fd, "C", [G.F("a", 1, T.TYPE_MESSAGE, type_name=M + "A")])
-    G.add_message(fd, "Res", [G.F("name", 1, T.TYPE_STRING), G.F("d", 2, T.TYPE_MESSAGE, type_name=M + "D")], resource=("lab.example.com/Res", "things/{thing}"))
-    G.add_message(fd, "D", [])
+    # the resource a kept request refers to lives in the *other* file of the package and is reachable only through that reference
+    G.add_message(k, "Res", [G.F("name", 1, T.TYPE_STRING), G.F("d", 2, T.TYPE_MESSAGE, type_name=M + "D")], resource=("lab.example.com/Res", "things/{thing}"))
+    G.add_message(k, "D", [])
     G.add_message(fd, "Lonely", [G.F("e", 1, T.TYPE_MESSAGE, type_name=M + "E")])
     G.add_message(fd, "E", [])
     G.add_message(fd, "Meta", [])
